@@ -87,7 +87,11 @@ func (w *World) expectedDeposits(m *mwallet) []depositRec {
 
 func depKey(txid string, idx uint32, height uint64) string { return fmt.Sprintf("%s:%d@%d", txid, idx, height) }
 
-func (w *World) auditHistories(t *rapid.T) {
+func (w *World) auditHistories(t *rapid.T) { w.auditHistoriesOpt(t, false) }
+
+// auditHistoriesOpt with minedOnly ignores pending entries and spent-by-pending flags (used where the
+// pending set is not modelled).
+func (w *World) auditHistoriesOpt(t *rapid.T, minedOnly bool) {
 	for wi, m := range w.wallets {
 		ready, removing, exists := w.walletStatus(t, m.id)
 		if !exists || !ready || removing {
@@ -103,6 +107,9 @@ func (w *World) auditHistories(t *rapid.T) {
 				if exclude && d.Spent {
 					continue
 				}
+				if minedOnly && d.Height == 0 {
+					continue
+				}
 				k := depKey(d.Op.Hash.String(), d.Op.Index, d.Height)
 				if d.Class == clsStaking {
 					wantS[k] = d
@@ -116,6 +123,9 @@ func (w *World) auditHistories(t *rapid.T) {
 			}
 			seen := map[string]bool{}
 			for _, e := range sh {
+				if minedOnly && e.BlockHeight == 0 {
+					continue
+				}
 				k := depKey(e.TxHash.String(), e.Index, e.BlockHeight)
 				if seen[k] {
 					t.Fatalf("wallet %d: staking history lists %s twice", wi, k)
@@ -133,7 +143,7 @@ func (w *World) auditHistories(t *rapid.T) {
 				if e.Utxo.Spent != d.Spent {
 					t.Fatalf("wallet %d: staking deposit %s withdrawn=%v, best chain spends it: %v\n  %s", wi, k, e.Utxo.Spent, d.Spent, w.journalTail(25))
 				}
-				if d.Height != 0 && e.Utxo.SpentByUnmined != d.SpentBy {
+				if !minedOnly && d.Height != 0 && e.Utxo.SpentByUnmined != d.SpentBy {
 					t.Fatalf("wallet %d: staking deposit %s spent_by_unmined=%v want %v", wi, k, e.Utxo.SpentByUnmined, d.SpentBy)
 				}
 			}
@@ -148,6 +158,9 @@ func (w *World) auditHistories(t *rapid.T) {
 			}
 			seen = map[string]bool{}
 			for _, e := range bh {
+				if minedOnly && e.BlockHeight == 0 {
+					continue
+				}
 				k := depKey(e.TxHash.String(), e.Index, e.BlockHeight)
 				if seen[k] {
 					t.Fatalf("wallet %d: binding history lists %s twice", wi, k)
@@ -170,7 +183,7 @@ func (w *World) auditHistories(t *rapid.T) {
 				if e.Utxo.Spent != d.Spent {
 					t.Fatalf("wallet %d: binding deposit %s withdrawn=%v, best chain spends it: %v\n  %s", wi, k, e.Utxo.Spent, d.Spent, w.journalTail(25))
 				}
-				if d.Height != 0 && e.Utxo.SpentByUnmined != d.SpentBy {
+				if !minedOnly && d.Height != 0 && e.Utxo.SpentByUnmined != d.SpentBy {
 					t.Fatalf("wallet %d: binding deposit %s spent_by_unmined=%v want %v", wi, k, e.Utxo.SpentByUnmined, d.SpentBy)
 				}
 				if e.MsgTx == nil || e.MsgTx.TxHash() != d.Op.Hash {
@@ -184,7 +197,9 @@ func (w *World) auditHistories(t *rapid.T) {
 			}
 		}
 		// deposits are never spendable funds nor picked by automatic selection (also covered by C01's Spendable figure)
-		w.checkWithdrawalSequences(t, wi, m, exp)
+		if !minedOnly {
+			w.checkWithdrawalSequences(t, wi, m, exp)
+		}
 	}
 }
 
